@@ -44,7 +44,8 @@ def model(w, depth):
 class Gen:
     def __init__(self, rng, table):
         self.r = rng; self.tab = table["types"]; self.meta = table["meta"]
-        self.keyable = [{"k": k} for k in ("str", "i16", "u64", "atom", "bool", "any", "i8", "u32")] + [{"k": "reg", "name": n} for n in ("NStr", "NI16", "NU64") if n in self.tab]
+        self.keyable = [{"k": k} for k in ("str", "i16", "u64", "atom", "bool", "any", "i8", "u32")] + [{"k": "reg", "name": n} for n in ("NStr", "NI16", "NU64", "Env") if n in self.tab] + [
+            {"k": "array", "n": 2, "e": {"k": "i16"}}, {"k": "array", "n": 1, "e": {"k": "str"}}, {"k": "array", "n": 2, "e": {"k": "array", "n": 1, "e": {"k": "u8"}}}]
 
     def type(self, d):
         r = self.r
@@ -119,7 +120,9 @@ class Gen:
             if len(out) == n:
                 break
             k = kt["k"]; of = self.tab[kt["name"]]["u"]["of"] if k == "reg" else k
-            if of == "any":
+            if of == "array":
+                v = {"items": [self.keyvals(kt["e"], 1)[0] for _ in range(kt["n"])]}
+            elif of == "any":
                 t = self.r.choice([{"k": "str"}, {"k": "u8"}, {"k": "atom"}, {"k": "reg", "name": "NI16"}, {"k": "bool"}])
                 v = {"t": t, "v": self.keyvals(t, 1)[0]}
             elif of == "str":
